@@ -60,7 +60,7 @@ def mkOp (j : Json) : Op :=
       | [f, fa] => (nat! f, mkFieldAnn fa) | _ => (0, .plain .int)
     .defn (nat! (fld j "def")) { fields := fields, isLocal := bool! (fld j "local"),
                                  bound := bool! (fld j "bound"), isFunc := bool! (fld j "func"),
-                                 base := optNat (fld j "base") }
+                                 bases := (arr! (fld j "bases")).map nat! }
 
 partial def outVal : Val → Json
   | .none => .null
